@@ -170,11 +170,14 @@ func (r *renderer) node(fb *fileBuf, n *Node, depth int) {
 			r.eol(fb)
 		}
 	} else {
-		nsep := 6
+		nsep := 7
 		if fb.afterSchema {
 			nsep = 5
 		}
 		switch l.Choose("sep", nsep) {
+		case 6:
+			fb.w(ind + "# one # two # three") // a line comment with more hash signs in it
+			r.eol(fb)
 		case 5:
 			fb.w(ind + "##") // a comment that consists of two hash signs only
 			r.eol(fb)
